@@ -1,6 +1,7 @@
 from __future__ import annotations
 
 import itertools
+import math
 import weakref
 
 import claripy
@@ -17,13 +18,21 @@ class ModelCache:
         self.replacements = {}
         self.constraint_only_replacements = {}
 
+    @staticmethod
+    def _value_identity(value):
+        # 0.0 == -0.0 in Python (and they hash alike), but they are different values of a floating-point variable
+        return (value, math.copysign(1.0, value)) if isinstance(value, float) else value
+
+    def _identity(self):
+        return frozenset((k, self._value_identity(v)) for k, v in self.model.items())
+
     def __hash__(self):
         if not hasattr(self, "_hash"):
-            self._hash = hash(frozenset(self.model.items()))  # pylint:disable=attribute-defined-outside-init
+            self._hash = hash(self._identity())  # pylint:disable=attribute-defined-outside-init
         return self._hash
 
     def __eq__(self, other):
-        return self.model == other.model
+        return self._identity() == other._identity()
 
     def __getstate__(self):
         return (self.model,)
